@@ -104,6 +104,13 @@ class MSubAlias:
         self.inner_t = inner_t
 
 
+class MOpaqueSet:
+    """a module-level constant collection whose members are not modelled (e.g. a tuple of builtin types):
+    membership is an uninterpreted predicate"""
+    def __init__(self, name):
+        self.name = name
+
+
 class MExc:
     """exception instance"""
     def __init__(self, cls, args=(), origin=None):
